@@ -1,0 +1,14 @@
+//go:build verif
+
+// Contracts for deductive verification (comment-only; compiled only with -tags verif).
+package utils
+
+//@ pure func asciiLower(c int) int = ite('A' <= c && c <= 'Z', c + 32, c)
+
+//@ func CaseInsensitiveCompare(a, b) r
+//@   props C01
+//@   top-ensures r == (len(a) == len(b) && forall(k, 0, len(a), asciiLower(a[k]) == asciiLower(b[k])))
+//@   loop 0:
+//@     invariant 0 <= i && i <= len(a) && len(a) == len(b)
+//@     invariant forall(k, 0, i, asciiLower(a[k]) == asciiLower(b[k]))
+//@     decreases len(a) - i
